@@ -1,3 +1,5 @@
+//go:build verif_all || verif_c04
+
 package main
 
 import (
